@@ -59,6 +59,26 @@ add("C18", "exploration",
     "Trusted: the generator's grammar coverage; evaluation is limited to deterministic side-effect-free functions; hang = watchdog hit that repeats on an isolated retry.",
     "property-based testing + fuzzing (rapid, go test -fuzz) with a print/parse/evaluate round-trip oracle", "DESIGN.md §3 C18")
 
+add("C05", "exploration",
+    "Generated histories (3-12 steps) of INSERT VALUES/SELECT, UPDATE (single and join forms), DELETE (single and multi-table), REPLACE, ALTER ADD/DROP/RENAME, COMMIT, ROLLBACK on a CSV file, a temporary table or STDIN run statement by statement next to an ordered-table model; after every step SELECT * (names, column order, row order, text, NULL-ness), the affected-record count and the 'N record(s) ...' log lines must equal the model, after COMMIT a fresh session re-reads the file; every history runs at cpu 1 and cpu 4.",
+    "Trusted: props/c05/model.go (expression fragment built on the reference ladder); shapes outside the fragment cut the history.",
+    "stateful property-based testing (rapid, generated operation histories) against a reference table model", "DESIGN.md §3 C05")
+
+add("C08", "fault_enumeration",
+    "A transaction prefix of successful statements, then one data-changing statement engineered to fail at a chosen row (1/(id-K) in UPDATE/DELETE/INSERT..SELECT/REPLACE..SELECT/ALTER ADD DEFAULT/CREATE TABLE AS, wrong row length at row j, unknown/duplicate field, ambiguous multi-table UPDATE, cancellation after N context polls), on files, temporary tables and tables created in the transaction, on both sides of the 160-row worker split; a second sub-check re-runs the statement for every K / every N. Oracle: all tables and files are identical before and after the failing statement, COMMIT writes none of its partial effects, the session stays usable.",
+    "Trusted: the statement really fails (unexpected successes are discarded and counted); cancellation is modelled by a counting context whose Err() flips after N polls (Done() is not used).",
+    "fault injection at enumerated failure rows / poll counts over generated transactions (rapid) with a before/after snapshot oracle", "DESIGN.md §3 C08")
+
+add("C12", "exploration",
+    "Generated programs without non-deterministic functions (filters, all join kinds, GROUP BY with LISTAGG/JSON_AGG, DISTINCT, set operators, ORDER BY with ties, several analytic functions, subqueries, INSERT..SELECT/UPDATE/DELETE/REPLACE + COMMIT) over tables whose sizes straddle the worker-split thresholds are run for cpu in {1,2,3,4,8,16} x r repetitions (GOMAXPROCS varied), in-process and through the real binary (--cpu, stdout, committed bytes); every run must equal the first cpu=1 run in rows, order, header and file bytes. Non-triviality is measured (the verif counter of task managers that really ran with >1 goroutine).",
+    "Goroutine schedules are sampled, not owned: a divergence that needs a rare schedule may be missed in r repetitions.",
+    "differential testing over generated programs (rapid): repeated runs across --cpu values against the cpu=1 run", "DESIGN.md §3 C12")
+
+add("C20", "exploration",
+    "Generated histories of one transaction A (SELECT in several table spellings, SELECT FOR UPDATE, INSERT/UPDATE/DELETE, INSERT..SELECT, COMMIT, ROLLBACK) interleaved with commits of other sessions/processes B to the same files, compared with a cache model per table (file contents, A's snapshot, for-update flag, own changes, the documented reload on the first data-changing access after a plain read): every A read, every B outcome (commit iff A does not hold the table, else lock timeout and unchanged file) and the final files.",
+    "B's lock timeout is semantic (50 ms wait while A holds the lock); when the model says B must succeed a timeout is retried with 30 s before judging. Interleavings inside one statement's file-system steps belong to C09.",
+    "stateful property-based testing (rapid, generated histories with foreign commits) against a cache model", "DESIGN.md §3 C20")
+
 NOT_YET = {}
 
 def main():
